@@ -680,6 +680,7 @@ func props() []rp.Prop {
 		rp.P[api.Case]{Name: "args", Checks: n, Gen: genArgs, Check: checkArgs},
 		rp.P[cfgCase]{Name: "config", Checks: n / 10, Gen: genCfg, Check: checkCfg},
 		rp.P[localCase]{Name: "local-layouts", Sweep: sweepLocal, Check: checkLocal},
+		rp.P[keywordText]{Name: "keyword-text", Checks: n / 4, Gen: genKeywordText, Check: checkKeywordText},
 		rp.P[dayText]{Name: "weekday-text", Checks: n / 8, Gen: genDayText, Check: checkDayText},
 		rp.P[addrText]{Name: "address-text", Checks: n / 4, Gen: genAddrText, Check: checkAddrText},
 		rp.P[faultCase]{Name: "network-faults", Checks: ev.Pick(600, 40000) / ev.Shards(), Gen: genFault, Check: checkFault},
